@@ -115,6 +115,8 @@ pub(crate) fn randomized_register_set(rip_value: u64) -> HashMap<SupportedRegist
 
     for register in GENERAL_PURPOSE_REGISTERS.iter() {
         let value = rng.gen::<u64>();
+        #[cfg(ax_verif)]
+        let value = crate::verif::rng_u64().unwrap_or(value);
         map.insert(*register, value & 0xffff_ffff);
     }
 
@@ -130,6 +132,8 @@ pub(crate) fn randomized_xmm_set() -> HashMap<SupportedRegister, u128> {
 
     for register in XMM_REGISTERS.iter() {
         let value = rng.gen::<u128>();
+        #[cfg(ax_verif)]
+        let value = crate::verif::rng_u128().unwrap_or(value);
         map.insert(*register, value);
     }
 
